@@ -7,6 +7,7 @@ require (
 	github.com/anishathalye/porcupine v1.3.0
 	github.com/dsnet/compress v0.0.1
 	github.com/klauspost/compress v1.17.2
+	github.com/klauspost/pgzip v1.2.6
 	github.com/sirupsen/logrus v1.9.3
 	github.com/ulikunitz/xz v0.5.11
 )
@@ -19,7 +20,6 @@ require (
 	github.com/goccy/go-json v0.10.3 // indirect
 	github.com/goombaio/orderedmap v0.0.0-20180924084748-ba921b7e2419 // indirect
 	github.com/goombaio/orderedset v0.0.0-20180925151225-8e67b20a9b77 // indirect
-	github.com/klauspost/pgzip v1.2.6 // indirect
 	github.com/mattn/go-runewidth v0.0.15 // indirect
 	github.com/mitchellh/colorstring v0.0.0-20190213212951-d06e56a500db // indirect
 	github.com/pbnjay/memory v0.0.0-20210728143218-7b4eea64cf58 // indirect
